@@ -28,6 +28,9 @@ use crate::{
     PrefixCodec, Result,
 };
 
+/// The minimum number of items loaded at once, whatever the available memory is.
+const MIN_ITEMS_PER_BATCH: usize = 200;
+
 /// The options available when building the arroy database.
 pub struct ArroyBuilder<'a, D: Distance, R: Rng + SeedableRng> {
     writer: &'a Writer<D>,
@@ -609,12 +612,17 @@ impl<D: Distance> Writer<D> {
 
             // For each steps of the loop we starts by creating a new sub-tree with as many items as possible
             // and then insert all the remaining items that couldn't be selected into this new created tree.
+            // The sub-tree must be made of more items than a descendants node can hold. Otherwise it would
+            // be a single descendants node, and inserting the remaining items into it would only recreate
+            // the same too large descendants forever.
+            let max_in_descendant = options.split_after.unwrap_or(self.dimensions);
             let (leafs, to_insert) = ImmutableLeafs::new(
                 wtxn,
                 self.database,
                 self.index,
                 &mut descendants,
                 options.available_memory.unwrap_or(usize::MAX),
+                MIN_ITEMS_PER_BATCH.max(max_in_descendant.saturating_add(1)),
             )?;
             let frozen_reader = FrozzenReader {
                 leafs: &leafs,
@@ -690,6 +698,7 @@ impl<D: Distance> Writer<D> {
                 options
                     .available_memory
                     .map_or(usize::MAX, |memory| (memory as f64 * 2.0 / 3.0).floor() as usize),
+                MIN_ITEMS_PER_BATCH,
             )?;
             let frozzen_reader =
                 FrozzenReader { leafs: &leafs, trees: &immutable_tree_nodes, concurrent_node_ids };
